@@ -141,20 +141,32 @@ Proof. exact program_of_statements_proof. Qed.
 Print Assumptions program_of_statements_partial.
 
 (* The statement fragment (JsExpr/StmtModel.v: a second model, of the statement forms of parseStmt that wrap parseExpression,
-   tied to js.Parse by its own correspondence run; JsExpr/Stmts2.v): every program built from expression statements, empty
-   statements, labelled statements, blocks, if / else, while and do-while ([xprog] / [xone] / [xlist]: the productions with
-   their trees; an ExpressionStatement ends at ';' on any line, at a line break before a token that cannot continue it, at the
-   '}' of its block or at the end of the input; do-while takes its ';' on any line or none) is parsed, with
-   Options.WhileToFor off, to exactly the statement list the grammar prescribes.
-   PARTIAL, MISSING: throw, break / continue and var declarations (in the model and its correspondence run, not yet in
-   [xone]); for, switch, try, with, return, function / class / let / const declarations, import / export (outside the
-   model: searched by the generator oracle); a statement that is not terminated by ';' directly followed by a ';' on the
-   same line (`{};`, `if(a)b;;`: KNOWN_FINDINGS c03-tree:empty-statement-same-line; [xone] leaves that shape out);
-   Options.WhileToFor (the model covers it, the tree is then a for statement by design). *)
+   tied to js.Parse by its own correspondence run; JsExpr/Stmts2.v).  INSIDE ([xprog] / [xone] / [xlist] / [xvars] / [finit] /
+   [fopt]: the productions with their trees): expression statements, empty statements, labelled statements, blocks,
+   if / else, while, do-while, for ( [Expression | var ...] ; [Expression] ; [Expression] ) Statement with the In flag off in
+   the initialiser (the body is stored as a block), throw (no line break after the keyword), break / continue with an
+   optional label on the same line, var declarations with identifier bindings and AssignmentExpression initialisers.
+   Terminators: an ExpressionStatement, throw, break / continue or var statement ends at ';' on any line, or — automatic
+   semicolon insertion — at a line break before a token that cannot continue it, at the '}' of its block or at the end of
+   the input; do-while takes its ';' on any line or none.  Every such program is parsed, with Options.WhileToFor off, to
+   exactly the statement list the grammar prescribes.
+   PARTIAL, MISSING: (1) a statement that ';' does not terminate (block, if, while, for, labelled, empty) directly followed
+   by a ';' on the same line (`{};`, `if(a)b;;`, `;;`): the code drops that EmptyStatement (KNOWN_FINDINGS
+   c03-tree:empty-statement-same-line), so [xone] leaves the shape out — the only gap inside the listed forms.
+   OUTSIDE the fragment (searched by the generator oracle, not proved): for-in / for-of / for await, switch, try, with,
+   return and function / class declarations and expressions, let / const declarations, import / export, binding patterns
+   (destructuring), yield / await as names. *)
 Theorem program_of_statement_fragment_partial :
   forall ts l, xprog ts l -> parse_xprogram false ts = Ok l.
 Proof. exact program_of_statement_fragment_proof. Qed.
 Print Assumptions program_of_statement_fragment_partial.
+
+(* The same with Options.WhileToFor on: the tree is the prescribed one with every while statement rewritten to
+   `for ( ; cond ; ) { body }` ([tw true]: the option's documented effect). *)
+Theorem program_of_statement_fragment_whiletofor_partial :
+  forall ts l, xprog ts l -> parse_xprogram true ts = Ok (map (tw true) l).
+Proof. exact program_of_statement_fragment_w2f_proof. Qed.
+Print Assumptions program_of_statement_fragment_whiletofor_partial.
 
 (* ---- the grammar relation ------------------------------------------------------------------------------------------------------------- *)
 
